@@ -1618,3 +1618,204 @@ fn c13_linear_layers() {
     }
     finish("c13_linear_layers", cases, bad);
 }
+
+// C05 (batched FRI): several oracles, several degrees; every component of the opening proof is checked
+#[test]
+fn c05_batch_fri() {
+    use crate::batch_fri::oracle::BatchFriOracle;
+    use crate::batch_fri::verifier::verify_batch_fri_proof;
+    use crate::field::polynomial::PolynomialValues;
+    use crate::field::types::Sample;
+    use crate::fri::structure::{FriBatchInfo, FriInstanceInfo, FriOpeningBatch, FriOpenings, FriOracleInfo, FriPolynomialInfo};
+    use crate::fri::{FriConfig, FriParams};
+    use crate::iop::challenger::Challenger;
+    use crate::util::timing::TimingTree;
+    let mut bad = Vec::new();
+    let mut cases = 0usize;
+    // (degrees of the polynomials of each oracle, arity schedule, queries): small domains with many queries make repeated query positions certain
+    let plans: Vec<(Vec<usize>, Vec<usize>, usize, usize)> = vec![
+        (vec![7, 6], vec![1, 1], 12, 2),          // two oracles
+        (vec![5, 4, 3], vec![1, 1], 24, 2),       // tiny domain: repeated positions
+        (vec![6, 4], vec![2, 1], 16, 1),          // one oracle, mixed arities (a polynomial must enter exactly at a folding boundary)
+        (vec![6, 4], vec![1, 1, 1], 14, 3),       // three oracles
+    ];
+    for (ks, arities, nq, n_oracles) in plans {
+        let tag = format!("batch FRI degrees 2^{ks:?}, arities {arities:?}, {nq} queries, {n_oracles} oracles");
+        let mut timing = TimingTree::default();
+        let fri_params = FriParams { config: FriConfig { rate_bits: 1, cap_height: 1, proof_of_work_bits: 1, reduction_strategy: FriReductionStrategy::Fixed(arities.clone()), num_query_rounds: nq }, hiding: false, degree_bits: ks[0], reduction_arity_bits: arities.clone() };
+        let built = catch_unwind(AssertUnwindSafe(|| {
+            let oracles: Vec<BatchFriOracle<F, PC, D>> = (0..n_oracles).map(|_| BatchFriOracle::from_values(ks.iter().map(|&k| PolynomialValues::new(F::rand_vec(1 << k))).collect(), 1, false, 1, &mut TimingTree::default(), &vec![None; ks.len()])).collect();
+            let mut challenger = Challenger::<F, PoseidonHash>::new();
+            for o in &oracles { challenger.observe_cap(&o.batch_merkle_tree.cap); }
+            let zeta = challenger.get_extension_challenge::<D>();
+            let instances: Vec<FriInstanceInfo<F, D>> = (0..ks.len()).map(|i| FriInstanceInfo { oracles: (0..n_oracles).map(|_| FriOracleInfo { num_polys: 1, blinding: false }).collect(),
+                batches: vec![FriBatchInfo { point: zeta, polynomials: (0..n_oracles).map(|o| FriPolynomialInfo { oracle_index: o, polynomial_index: i }).collect() }] }).collect();
+            let openings: Vec<FriOpenings<F, D>> = (0..ks.len()).map(|i| FriOpenings { batches: vec![FriOpeningBatch { values: oracles.iter().map(|o| o.polynomials[i].to_extension::<D>().eval(zeta)).collect() }] }).collect();
+            for o in &openings { challenger.observe_openings(o); }
+            let mut vch = challenger.clone();
+            let refs: Vec<&BatchFriOracle<F, PC, D>> = oracles.iter().collect();
+            let proof = BatchFriOracle::prove_openings(&ks, &instances, &refs, &mut challenger, &fri_params, &mut TimingTree::default());
+            let ch = vch.fri_challenges::<PC, D>(&proof.commit_phase_merkle_caps, &proof.final_poly, proof.pow_witness, ks[0], &fri_params.config, None, None);
+            let caps: Vec<_> = oracles.iter().map(|o| o.batch_merkle_tree.cap.clone()).collect();
+            (instances, openings, proof, ch, caps)
+        }));
+        let _ = &mut timing;
+        let Ok((instances, openings, proof, ch, caps)) = built else { bad.push(format!("{tag}: building / proving PANICKED")); continue; };
+        let verdict = |op: &Vec<FriOpenings<F, D>>, p: &crate::fri::proof::FriProof<F, PoseidonHash, D>| -> &'static str {
+            match catch_unwind(AssertUnwindSafe(|| verify_batch_fri_proof::<F, PC, D>(&ks, &instances, op, &ch, &caps, p, &fri_params))) { Ok(Ok(())) => "ACCEPTED", Ok(Err(_)) => "rejected", Err(_) => "PANICKED" } };
+        cases += 1;
+        let v = verdict(&openings, &proof);
+        if v != "ACCEPTED" { bad.push(format!("{tag}: honest proof {v}")); continue; }
+        let mut expect_reject = |what: String, op: &Vec<FriOpenings<F, D>>, p: &crate::fri::proof::FriProof<F, PoseidonHash, D>, bad: &mut Vec<String>| { cases += 1; let v = verdict(op, p); if v != "rejected" { bad.push(format!("{tag}: {what} -> {v}")); } };
+        // false openings
+        for i in 0..ks.len() { for o in 0..n_oracles { let mut op: Vec<FriOpenings<F, D>> = openings.iter().map(|x| FriOpenings { batches: x.batches.iter().map(|b| FriOpeningBatch { values: b.values.clone() }).collect() }).collect(); op[i].batches[0].values[o] += FE::ONE; expect_reject(format!("claimed opening of polynomial {i} of oracle {o} altered"), &op, &proof, &mut bad); } }
+        // every query round (also the rounds that revisit a position), every oracle: leaf values and authentication paths
+        for r in 0..proof.query_round_proofs.len() {
+            for o in 0..n_oracles {
+                for e in 0..ks.len() { let mut p = proof.clone(); p.query_round_proofs[r].initial_trees_proof.evals_proofs[o].0[e] += F::ONE; expect_reject(format!("round {r}: leaf value {e} of oracle {o} altered"), &openings, &p, &mut bad); }
+                let ns = proof.query_round_proofs[r].initial_trees_proof.evals_proofs[o].1.siblings.len();
+                for sidx in [0usize, ns / 2, ns.saturating_sub(1)] { if sidx < ns { let mut p = proof.clone(); p.query_round_proofs[r].initial_trees_proof.evals_proofs[o].1.siblings[sidx].elements[0] += F::ONE; expect_reject(format!("round {r}: sibling {sidx} of the path of oracle {o} altered"), &openings, &p, &mut bad); } }
+            }
+            for s in 0..proof.query_round_proofs[r].steps.len() {
+                { let mut p = proof.clone(); let l = p.query_round_proofs[r].steps[s].evals.len() - 1; p.query_round_proofs[r].steps[s].evals[l] += FE::ONE; expect_reject(format!("round {r}: coset evaluation of step {s} altered"), &openings, &p, &mut bad); }
+                if !proof.query_round_proofs[r].steps[s].merkle_proof.siblings.is_empty() { let mut p = proof.clone(); p.query_round_proofs[r].steps[s].merkle_proof.siblings[0].elements[1] += F::ONE; expect_reject(format!("round {r}: path of step {s} altered"), &openings, &p, &mut bad); }
+            }
+        }
+        { let mut p = proof.clone(); p.final_poly.coeffs[0] += FE::ONE; expect_reject("final polynomial altered".into(), &openings, &p, &mut bad); }
+        { let mut p = proof.clone(); p.query_round_proofs.pop(); expect_reject("last query round dropped".into(), &openings, &p, &mut bad); }
+        { let mut p = proof.clone(); p.query_round_proofs.clear(); expect_reject("all query rounds dropped".into(), &openings, &p, &mut bad); }
+        { let mut p = proof.clone(); let l = p.query_round_proofs[0].clone(); p.query_round_proofs.push(l); expect_reject("surplus query round".into(), &openings, &p, &mut bad); }
+        for k in 0..proof.commit_phase_merkle_caps.len() { let mut p = proof.clone(); p.commit_phase_merkle_caps[k].0[0].elements[0] += F::ONE; expect_reject(format!("commit-phase cap {k} altered (challenges held fixed)"), &openings, &p, &mut bad); }
+        for o in 0..n_oracles { let mut c2 = caps.clone(); for e in c2[o].0.iter_mut() { e.elements[2] += F::ONE; }
+            cases += 1; let v = match catch_unwind(AssertUnwindSafe(|| verify_batch_fri_proof::<F, PC, D>(&ks, &instances, &openings, &ch, &c2, &proof, &fri_params))) { Ok(Ok(())) => "ACCEPTED", Ok(Err(_)) => "rejected", Err(_) => "PANICKED" };
+            if v != "rejected" { bad.push(format!("{tag}: commitment (cap) of oracle {o} replaced -> {v}")); } }
+    }
+    finish("c05_batch_fri", cases, bad);
+}
+
+// C04 / C13: the challenger as a black box: whatever is absorbed between two challenges, by whichever method and of whatever length
+// (in particular lengths that end exactly on a sponge block), the next challenge depends on it and buffered outputs are never reused
+#[test]
+fn c04_challenger_battery() {
+    use crate::iop::challenger::Challenger;
+    use crate::field::types::Sample;
+    let mut bad = Vec::new();
+    let mut cases = 0usize;
+    fn run<H: Hasher<F>>(tag: &str, mk_hash: &dyn Fn(u64) -> H::Hash, bad: &mut Vec<String>, cases: &mut usize) {
+        use crate::iop::challenger::Challenger;
+        for prefix in [0usize, 1, 5, 8, 11] {
+            for pre_draws in [0usize, 1, 3, 8, 9] {
+                for method in 0..4usize {
+                    for len in 1..=20usize {
+                        if method == 2 && len > 3 { continue; }        // hashes: 1..3 digests
+                        if method == 3 && len > 5 { continue; }        // caps: 1..5 entries
+                        // two absorptions that differ in exactly one position (first / middle / last)
+                        for pos in [0usize, len / 2, len - 1] {
+                            let mut outs = Vec::new();
+                            for variant in 0..2u64 {
+                                let mut c = Challenger::<F, H>::new();
+                                c.observe_elements(&(0..prefix).map(|i| F::from_canonical_u64(1000 + i as u64)).collect::<Vec<_>>());
+                                let _ = c.get_n_challenges(pre_draws);
+                                let val = |i: usize| 7 * i as u64 + 3 + if i == pos { variant } else { 0 };
+                                match method {
+                                    0 => c.observe_elements(&(0..len).map(|i| F::from_canonical_u64(val(i))).collect::<Vec<_>>()),
+                                    1 => c.observe_extension_elements::<D>(&(0..len).map(|i| FE::from_basefield_array([F::from_canonical_u64(val(i)), F::from_canonical_u64(5)])).collect::<Vec<_>>()),
+                                    2 => { for i in 0..len { c.observe_hash::<H>(mk_hash(val(i))); } }
+                                    _ => c.observe_cap::<H>(&MerkleCap((0..len).map(|i| mk_hash(val(i))).collect())),
+                                }
+                                outs.push(c.get_n_challenges(3));
+                            }
+                            *cases += 1;
+                            if outs[0][0] == outs[1][0] { bad.push(format!("{tag}: after {prefix} elements and {pre_draws} challenges, absorbing {len} items by method {} differing in position {pos}: the next challenge is the same", ["observe_elements", "observe_extension_elements", "observe_hash", "observe_cap"][method])); }
+                        }
+                    }
+                }
+            }
+        }
+    }
+    use crate::field::extension::FieldExtension;
+    run::<PoseidonHash>("poseidon", &|x| HashOut { elements: [F::from_canonical_u64(x), F::ONE, F::TWO, F::from_canonical_u64(9)] }, &mut bad, &mut cases);
+    run::<KeccakHash<25>>("keccak", &|x| { let mut b = [7u8; 25]; b[24] = (x % 251) as u8; b[0] = (x / 251 % 251) as u8; crate::hash::hash_types::BytesHash(b) }, &mut bad, &mut cases);
+    finish("c04_challenger_battery", cases, bad);
+}
+
+// C12: wide leaves (several sponge blocks) and batch Merkle trees (matrices of different heights under one cap)
+fn c12_wide_batch<H: Hasher<F>>(tag: &str, bad: &mut Vec<String>, cases: &mut usize) {
+    use crate::hash::batch_merkle_tree::BatchMerkleTree;
+    use crate::hash::merkle_proofs::verify_batch_merkle_proof_to_cap;
+    use crate::plonk::config::GenericHashOut;
+    // (a) the leaf hash depends on every element of a leaf, whatever its width (a leaf is absorbed in rate-sized blocks, nothing is forgotten)
+    for width in 1..=41usize {
+        let v: Vec<F> = (0..width).map(|j| F::from_canonical_u64(1000 + 13 * j as u64)).collect();
+        let h = H::hash_or_noop(&v);
+        for pos in 0..width { let mut w = v.clone(); w[pos] += F::ONE; *cases += 1; if H::hash_or_noop(&w) == h { bad.push(format!("{tag}: leaf of width {width}: changing element {pos} does not change the leaf digest")); break; } }
+    }
+    for &width in &[8usize, 12, 16, 24, 25, 40] {
+        let n = 8usize;
+        let leaves: Vec<Vec<F>> = (0..n).map(|i| (0..width).map(|j| F::from_canonical_u64((i * 131 + j * 7 + 1) as u64)).collect()).collect();
+        for cap_height in [0usize, 1, 3] {
+            let tree = MerkleTree::<F, H>::new(leaves.clone(), cap_height);
+            for i in 0..n {
+                let proof = tree.prove(i);
+                *cases += 1;
+                if verify_merkle_proof_to_cap::<F, H>(leaves[i].clone(), i, &tree.cap, &proof).is_err() { bad.push(format!("{tag}: width {width} cap {cap_height}: honest opening of {i} rejected")); continue; }
+                for pos in [0usize, 7.min(width - 1), 8.min(width - 1), width / 2, width - 1] {
+                    let mut l = leaves[i].clone(); l[pos] += F::ONE; *cases += 1;
+                    if let Ok(Ok(())) = catch_unwind(AssertUnwindSafe(|| verify_merkle_proof_to_cap::<F, H>(l, i, &tree.cap, &proof))) { bad.push(format!("{tag}: width {width} cap {cap_height}: leaf {i} with element {pos} altered is accepted")); }
+                }
+            }
+        }
+    }
+    // (b) batch trees: cap == level-by-level recomputation; every opening verifies; altered rows / positions are rejected
+    let shapes: Vec<(Vec<(usize, usize)>, usize)> = vec![
+        (vec![(4, 3), (2, 2)], 2), (vec![(4, 3), (2, 2)], 0), (vec![(4, 3), (2, 2)], 1), (vec![(5, 1), (3, 2), (1, 4)], 0), (vec![(5, 1), (3, 2), (1, 4)], 1),
+        (vec![(3, 2)], 3), (vec![(3, 2)], 0), (vec![(4, 5), (3, 1)], 3), (vec![(4, 9), (1, 9)], 1), (vec![(2, 1), (1, 1), (0, 1)], 0),
+    ];
+    for (shape, cap_height) in shapes {
+        let mats: Vec<Vec<Vec<F>>> = shape.iter().enumerate().map(|(m, &(lr, w))| (0..1usize << lr).map(|r| (0..w).map(|c| F::from_canonical_u64((m * 10007 + r * 101 + c * 3 + 1) as u64)).collect()).collect()).collect();
+        let stag = format!("{tag}: batch tree {shape:?} cap {cap_height}");
+        let tree = match catch_unwind(AssertUnwindSafe(|| BatchMerkleTree::<F, H>::new(mats.clone(), cap_height))) { Ok(t) => t, Err(_) => { bad.push(format!("{stag}: construction PANICKED")); continue; } };
+        // reference cap
+        let mut layer: Vec<H::Hash> = mats[0].iter().map(|r| H::hash_or_noop(r)).collect();
+        let mut next = 1;
+        loop {
+            if next < mats.len() && mats[next].len() == layer.len() {
+                layer = layer.iter().zip(&mats[next]).map(|(d, row)| { let mut v = d.to_vec(); v.extend_from_slice(row); H::hash_or_noop(&v) }).collect();
+                next += 1;
+            }
+            if layer.len() == 1 << cap_height { break; }
+            layer = layer.chunks(2).map(|p| H::two_to_one(p[0], p[1])).collect();
+        }
+        *cases += 1;
+        if next != mats.len() { continue; }   // the shortest matrix is below the cap: not a valid shape
+        if tree.cap.0 != layer { bad.push(format!("{stag}: cap differs from the level-by-level recomputation (some rows are not committed)")); }
+        let n = mats[0].len();
+        for i in 0..n {
+            let proof = tree.open_batch(i);
+            let vals = tree.values(i);
+            *cases += 1;
+            match catch_unwind(AssertUnwindSafe(|| verify_batch_merkle_proof_to_cap::<F, H>(&vals, &tree.leaf_heights, i, &tree.cap, &proof))) {
+                Ok(Ok(())) => {}
+                _ => { bad.push(format!("{stag}: honest opening of position {i} rejected")); continue; }
+            }
+            for m in 0..vals.len() { let mut v2 = vals.clone(); v2[m][0] += F::ONE; *cases += 1;
+                if let Ok(Ok(())) = catch_unwind(AssertUnwindSafe(|| verify_batch_merkle_proof_to_cap::<F, H>(&v2, &tree.leaf_heights, i, &tree.cap, &proof))) { bad.push(format!("{stag}: position {i}: altered row of matrix {m} accepted")); } }
+            if n > 1 { let j = (i + 1) % n; if vals != tree.values(j) { *cases += 1;
+                if let Ok(Ok(())) = catch_unwind(AssertUnwindSafe(|| verify_batch_merkle_proof_to_cap::<F, H>(&vals, &tree.leaf_heights, j, &tree.cap, &proof))) { bad.push(format!("{stag}: opening of position {i} accepted at position {j}")); } } }
+        }
+    }
+}
+
+#[test]
+fn c12_wide_and_batch_poseidon() {
+    let mut bad = Vec::new(); let mut cases = 0usize;
+    c12_wide_batch::<PoseidonHash>("poseidon", &mut bad, &mut cases);
+    finish("c12_wide_and_batch_poseidon", cases, bad);
+}
+
+#[test]
+fn c12_wide_and_batch_keccak() {
+    let mut bad = Vec::new(); let mut cases = 0usize;
+    c12_wide_batch::<KeccakHash<25>>("keccak", &mut bad, &mut cases);
+    finish("c12_wide_and_batch_keccak", cases, bad);
+}
